@@ -33,7 +33,7 @@ theorem recState_fam {y : Sys} {k : Nat} {status : Status} {newW : List (List Ra
     (hrec : recState (loop y.s).1 job status newW = .ok (s1, tn, pns)) : Fam s1 tn := by
   obtain ⟨hle, hfe, _⟩ := loop_frame y.s
   obtain ⟨_, hltn, _⟩ := loop_coreEq y.s
-  have hc1 : Core (loop y.s).1 (heldJob job ++ held (y.jobs.eraseIdx k)) (loop y.s).1.trajNum := by
+  have hc1 : CoreR (loop y.s).1 (heldJob job ++ held (y.jobs.eraseIdx k)) (loop y.s).1.trajNum := by
     rw [hltn]
     exact (hi.inv.core.congr hle).perm (held_perm_erase y.jobs k job hjob)
   have hf1 : Fam (loop y.s).1 (loop y.s).1.trajNum := by
@@ -41,7 +41,7 @@ theorem recState_fam {y : Sys} {k : Nat} {status : Status} {newW : List (List Ra
   have hjm : job ∈ y.jobs := List.mem_of_getElem? hjob
   unfold recState at hrec
   obtain ⟨rest, hrest⟩ := zip_fst_prefix job.picked (jobWs job status newW)
-  have h0 : Core (loop y.s).1 (heldPicked ((job.picked.zip (jobWs job status newW)).map Prod.fst)
+  have h0 : CoreR (loop y.s).1 (heldPicked ((job.picked.zip (jobWs job status newW)).map Prod.fst)
       ++ (heldPicked rest ++ held (y.jobs.eraseIdx k))) (loop y.s).1.trajNum := by
     have : heldJob job = heldPicked ((job.picked.zip (jobWs job status newW)).map Prod.fst)
         ++ heldPicked rest := by
